@@ -1,13 +1,27 @@
 #!/bin/bash
-# usage: selftest/try_patch.sh <patch.diff> <PROP> [tier] ; applies the patch to /repo, runs the check, ALWAYS reverts.
+# usage: selftest/try_patch.sh <patch.diff> <PROP> [tier]
+# Runs a check against /repo's HEAD + the patch.  Default: in a scratch worktree under /tmp handed to the check through
+# VERIF_REPO (so other runs against /repo are not disturbed); with TRY_PATCH_INPLACE=1 the patch is applied to /repo itself
+# (git -C /repo apply) and ALWAYS reverted (git -C /repo checkout -- .).
 set -u
 PATCH="$(readlink -f "$1")"; PROP="$2"; TIER="${3:-quick}"
+TAG="$(basename "$(dirname "$PATCH")")_$(basename "$PATCH" .diff)_$$"
 cd /verif
-if ! git -C /repo diff --quiet -- virocon; then echo "try_patch: /repo has uncommitted changes - refusing"; exit 3; fi
-git -C /repo apply "$PATCH" || { echo "try_patch: patch does not apply"; exit 3; }
-trap 'git -C /repo checkout -- . ' EXIT
-./check "$PROP" --tier "$TIER" > /tmp/try_patch_$PROP.log 2>&1
-rc=$?
-grep -E " x |held on|INCONCLUSIVE|KNOWN-FINDING|unlisted" /tmp/try_patch_$PROP.log | cut -c1-260 | head -12
+if [ "${TRY_PATCH_INPLACE:-0}" = "1" ]; then
+  if ! git -C /repo diff --quiet -- virocon; then echo "try_patch: /repo has uncommitted changes - refusing"; exit 3; fi
+  git -C /repo apply "$PATCH" || { echo "try_patch: patch does not apply"; exit 3; }
+  trap 'git -C /repo checkout -- . ' EXIT
+  ./check "$PROP" --tier "$TIER" > /tmp/try_patch_$TAG.log 2>&1; rc=$?
+else
+  WT=/tmp/trypatch_$TAG
+  git -C /repo worktree add --detach "$WT" HEAD >/dev/null 2>&1 || { echo "try_patch: cannot create worktree"; exit 3; }
+  trap 'git -C /repo worktree remove --force "$WT" >/dev/null 2>&1' EXIT
+  git -C "$WT" apply "$PATCH" || { echo "try_patch: patch does not apply"; exit 3; }
+  mkdir -p /tmp/trypatch_out_$TAG
+  VERIF_EVIDENCE_DIR=/tmp/trypatch_out_$TAG VERIF_REPLAY_DIR=/tmp/trypatch_out_$TAG VERIF_REPO="$WT" ./check "$PROP" --tier "$TIER" > /tmp/try_patch_$TAG.log 2>&1; rc=$?
+fi
+cp /tmp/try_patch_$TAG.log /tmp/try_patch_last_$PROP.log
+grep -E " x |held on|INCONCLUSIVE|KNOWN-FINDING|unlisted" /tmp/try_patch_$TAG.log | cut -c1-260 | head -12
 echo "try_patch: $PROP $TIER exit=$rc  ($(basename $(dirname $PATCH)))"
+rm -rf /tmp/try_patch_$TAG.log /tmp/trypatch_out_$TAG
 exit 0
